@@ -19,7 +19,8 @@ LEVEL_TEXT = ("Seeded exploration; pDESy's PERT values are compared with an inde
               "regime (waiting makes the critical path grow) the fixture test never reaches.")
 LEVEL_NOTE = "Trusted: the 25-line reference CPM in this module; sampling evidence only."
 PROBES = ["updates_checked", "cpl_grew_while_waiting", "multi_tail", "multi_head", "finished_task_in_network", "extra_update_calls",
-          "zero_remaining_task", "backward_prelude"]
+          "zero_remaining_task", "backward_prelude", "values_after_return_checked", "second_workflow_over_same_tasks",
+          "standalone_update_on_fresh_workflow"]
 
 
 def budget(tier):
@@ -34,6 +35,10 @@ def gen(rng, tier):
         focus["proj_abs"] = True
     spec = C.forward_spec(rng, tier, focus)
     spec["extra_t"] = [rng.randint(0, 30) for _ in range(2)]
+    if rng.random() < 0.1:
+        spec["second_workflow"] = True
+    if rng.random() < 0.12:
+        spec["standalone_t"] = rng.randint(0, 9)
     if rng.random() < 0.2:
         for t in spec["model"]["tasks"]:
             if rng.random() < 0.7:
@@ -44,10 +49,11 @@ def gen(rng, tier):
 
 
 def extra_candidates(spec):
-    if spec.get("prelude") is not None:
-        c = dict(spec)
-        c.pop("prelude")
-        yield c
+    for k in ("prelude", "second_workflow", "standalone_t"):
+        if spec.get(k) is not None:
+            c = dict(spec)
+            c.pop(k)
+            yield c
 
 
 def close(a, b):
@@ -98,9 +104,30 @@ def compare(res, st, T, cpl, time, label):
     return rcpl
 
 
+def standalone(spec, res):
+    """update_PERT_data(t) called directly on a freshly built workflow (no initialize, no simulate)."""
+    from .. import build as B
+    scen.setup_run(spec.get("seed", 0))
+    b = B.build(spec["model"], spec.get("ranks"))
+    st = Static(spec["model"])
+    tt = spec["standalone_t"]
+    r = D.Recorder(b.project, want_snap=False)
+    r.own_call = True
+    o = D.call(lambda: b.project.workflow.update_PERT_data(tt), r)
+    res.count("standalone_update_on_fresh_workflow")
+    if not o.ok:
+        res.add("raises", "C12.update_raises.%s@%s" % (o.exc_type, o.where), "update_PERT_data(%d) on a freshly built workflow raised %s" % (tt, o.msg), tt)
+        return
+    sn = D.snapshot(D.index(b.project))
+    pre = C.campaign.Result()
+    compare(pre, st, sn["T"], sn["cpl"], tt, "update_PERT_data(%d) on a freshly built workflow" % tt)
+    for v in pre.violations:
+        res.add(v["clause"], v["key"] + ".fresh_workflow", v["msg"], v["step"])
+
+
 def run(spec):
     if spec.get("prelude") is None:
-        tr = C.run_forward(spec, snap_phases=("updated", "recorded"))
+        tr = C.run_forward(spec, snap_phases=("updated", "allocated", "recorded"))
     else:
         # history: backward_simulate first (helper tasks for due times are added and must be gone again), then the
         # forward run whose PERT updates are compared with the reference CPM over the *given* network
@@ -127,7 +154,7 @@ def run(spec):
                 pre = C.campaign.Result()
                 compare(pre, st0, sn0["T"], sn0["cpl"], tt, "update_PERT_data(%d) directly after backward_simulate" % tt)
                 spec["_pre_violations"] = [(v["clause"], v["key"] + ".after_backward", v["msg"], v["step"]) for v in pre.violations]
-        tr.rec, tr.out = scen.simulate(tr.project, spec["cfg"], snap_phases=("updated", "recorded"))
+        tr.rec, tr.out = scen.simulate(tr.project, spec["cfg"], snap_phases=("updated", "allocated", "recorded"))
         tr.ix = tr.rec.ix
         tr.history = None
         tr.log_offset = 0
@@ -139,6 +166,8 @@ def run(spec):
     st = Static(tr.model)
     if any(k != G.FS for (_, _, k) in tr.model["deps"]):
         return C.finish(res, tr)
+    if spec.get("standalone_t") is not None:
+        standalone(spec, res)
     heads = [t for t in st.order if not st.preds[t]]
     tails = [t for t in st.order if not st.succs[t]]
     if len(heads) > 1:
@@ -153,6 +182,14 @@ def run(spec):
     for s in rec.steps:
         U = s.ph.get("updated")
         if U is None:
+            # the step went on without a PERT update having been observed: the values the allocation of this step
+            # works with must be current all the same ("equally at every later step of a simulation")
+            U = s.ph.get("allocated")
+            if U is None:
+                continue
+            res.count("step_without_observed_update")
+            c = compare(res, st, U["T"], U["cpl"], s.t, "step t=%d (no PERT update observed before its allocation)" % s.t)
+            prev = (s.t, c)
             continue
         c = compare(res, st, U["T"], U["cpl"], s.t, "update at t=%d" % s.t)
         if any(v[0] == FINISHED for v in U["T"].values()):
@@ -167,6 +204,16 @@ def run(spec):
     if tr.out.ok:
         wf = tr.project.workflow
         t0 = tr.project.time
+        # what simulate() leaves behind is the update of its last loop iteration (time = project.time)
+        sn = D.snapshot(tr.ix)
+        res.count("values_after_return_checked")
+        compare(res, st, sn["T"], sn["cpl"], t0, "values left by simulate() (time %d)" % t0)
+        if spec.get("second_workflow"):
+            # the same task objects are also registered in a second workflow (a what-if project over the same tasks);
+            # PERT of the first workflow is a function of its task_list and the links only
+            res.count("second_workflow_over_same_tasks")
+            wf2 = seams.classes().Workflow()
+            D.call(lambda: wf2.extend_child_task_list(list(wf.task_list)))
         for dt in spec.get("extra_t", []):
             tt = t0 + dt
             r = D.Recorder(tr.project, want_snap=False)
